@@ -37,24 +37,28 @@ type fedConfig struct {
 	Mode    string // default | explicit | computed
 	// MayNotGenerate: gqlgen documents that this combination is rejected by the generator.
 	MayNotGenerate bool
-	// Reduced: the generated federation.go is byte-identical to the v2 configuration of the
-	// same mode (checked at run time), so the thorough tier explores it with the reduced plan.
-	Reduced bool
+	// Full: the thorough tier explores this configuration with the full plan (all schedules
+	// with zero preemptions for every fault-free list of length 3: ~8.4M executions); the
+	// others get the reduced plan (length 3 on the canonical schedule). The federation
+	// template code under test is the same in every configuration (v1 and v2 generate a
+	// byte-identical federation.go, recorded in the evidence); the modes differ in the
+	// requires handling of Req / MultiReq only.
+	Full bool
 }
 
 func (fc fedConfig) plan(tier string) []c20.LenPlan {
 	if os.Getenv("VERIF_C20_PLAN") != "" { // development aid
 		return c20.PlanFor(tier)
 	}
-	return c20.DefaultPlan(tier, !fc.Reduced)
+	return c20.DefaultPlan(tier, fc.Full)
 }
 
 var (
-	v2def = fedConfig{Name: "v2-default", Version: 2, Mode: "default"}
+	v2def = fedConfig{Name: "v2-default", Version: 2, Mode: "default", Full: true}
 	v2exp = fedConfig{Name: "v2-explicit_requires", Version: 2, Mode: "explicit"}
 	v2com = fedConfig{Name: "v2-computed_requires", Version: 2, Mode: "computed"}
-	v1def = fedConfig{Name: "v1-default", Version: 1, Mode: "default", Reduced: true}
-	v1exp = fedConfig{Name: "v1-explicit_requires", Version: 1, Mode: "explicit", Reduced: true}
+	v1def = fedConfig{Name: "v1-default", Version: 1, Mode: "default"}
+	v1exp = fedConfig{Name: "v1-explicit_requires", Version: 1, Mode: "explicit"}
 	v1com = fedConfig{Name: "v1-computed_requires", Version: 1, Mode: "computed", MayNotGenerate: true}
 )
 
@@ -313,22 +317,17 @@ func main() {
 			run = append(run, b)
 		}
 	}
-	// a Reduced configuration must really have the same generated federation code as the v2
-	// configuration of its mode; otherwise it gets the full plan
-	for i := range run {
-		if !run[i].Cfg.Reduced {
-			continue
-		}
-		same := false
+	// record which v1 configurations generate the same federation.go as their v2 counterpart
+	identical := []string{}
+	for _, r := range run {
 		for _, o := range run {
-			if o.Cfg.Version == 2 && o.Cfg.Mode == run[i].Cfg.Mode {
-				a, e1 := os.ReadFile(filepath.Join(run[i].Dir, "graph", "federation.go"))
+			if r.Cfg.Version == 1 && o.Cfg.Version == 2 && o.Cfg.Mode == r.Cfg.Mode {
+				a, e1 := os.ReadFile(filepath.Join(r.Dir, "graph", "federation.go"))
 				b, e2 := os.ReadFile(filepath.Join(o.Dir, "graph", "federation.go"))
-				same = e1 == nil && e2 == nil && string(a) == string(b)
+				if e1 == nil && e2 == nil && string(a) == string(b) {
+					identical = append(identical, r.Cfg.Name+" == "+o.Cfg.Name)
+				}
 			}
-		}
-		if !same {
-			run[i].Cfg.Reduced = false
 		}
 	}
 	buildS := time.Since(start).Seconds()
@@ -410,6 +409,7 @@ func main() {
 		"max_steps": 20000, "max_deviations_seen": maxCost, "max_steps_seen": maxStepsSeen, "configurations": len(run)}
 	c.Cov["per_config"] = per
 	c.Cov["configs_rejected_by_generator"] = notGenerated
+	c.Cov["generated_federation_go_identical"] = identical
 	c.Cov["build_seconds"] = int(buildS)
 	c.Cov["explanation"] = "stateless DFS over scheduling decisions of the real generated federation code under the controlled runtime; states = complete executions; a scenario = (representation list, at most one fault); every execution is an execution of the implementation"
 	probe.Cleanup()
